@@ -7,7 +7,6 @@ import (
 	"encoding/json"
 	"fmt"
 	"math/rand"
-	"strconv"
 	"strings"
 	"time"
 
@@ -76,28 +75,23 @@ func declaredConv(f *Field, raw json.RawMessage) (json.RawMessage, bool) {
 		}
 		out, _ := json.Marshal(t.Format(time.RFC3339Nano))
 		return out, true
-	case f.Int64Encoding == "NUMBER" && f.Card == "singular":
+	case f.Int64Encoding == "NUMBER" && (f.Card == "singular" || f.Card == "repeated"):
+		// exact reading of the literal (c11_num.go): a JSON number denoting a whole number in range
 		switch f.Kind {
-		case "uint64", "fixed64":
-			var n uint64
-			if json.Unmarshal(raw, &n) != nil {
-				return nil, false
-			}
-			out, _ := json.Marshal(strconv.FormatUint(n, 10))
-			return out, true
-		case "int64", "sint64", "sfixed64":
-			var n int64
-			if json.Unmarshal(raw, &n) != nil {
-				return nil, false
-			}
-			out, _ := json.Marshal(strconv.FormatInt(n, 10))
-			return out, true
+		case "uint64", "fixed64", "int64", "sint64", "sfixed64":
+			return numberConv(f, raw)
 		}
 	}
 	return nil, false
 }
 
 func trackedField(f *Field) bool {
+	if f.Card == "repeated" && f.Int64Encoding == "NUMBER" {
+		switch f.Kind {
+		case "int64", "sint64", "sfixed64", "uint64", "fixed64":
+			return true
+		}
+	}
 	if f.Card != "singular" {
 		return false
 	}
@@ -173,6 +167,7 @@ type c11Case struct {
 	body   []byte
 	fault  *[2]any // after, kind
 	family string
+	expect *c11Expect // numeric-boundary: the exact reading of the literal (c11_num.go)
 }
 
 var c11CTs = []string{"application/json", "application/x-protobuf", "application/octet-stream", "text/plain", "application/json; charset=utf-8"}
@@ -184,6 +179,7 @@ func CheckC11(run *Run) {
 	for _, r := range FeatureCatalogue() {
 		reqs = append(reqs, r)
 	}
+	reqs = append(reqs, c11NumericCatalogue()...)
 	rng := rand.New(rand.NewSource(run.Seed + 1111))
 	rounds := 2
 	if run.Tier == "thorough" {
@@ -212,7 +208,7 @@ func CheckC11(run *Run) {
 						if trackedField(fl) {
 							t.tracked[JSONName(fl.Name)] = fl
 						}
-						if fl.Unwrap || fl.Nullable != nil || fl.EmptyBehavior != "" || fl.Flatten != nil || (fl.Int64Encoding == "NUMBER" && fl.Card != "singular") ||
+						if fl.Unwrap || fl.Nullable != nil || fl.EmptyBehavior != "" || fl.Flatten != nil || (fl.Int64Encoding == "NUMBER" && fl.Card != "singular" && fl.Card != "repeated") ||
 							(fl.TimestampFormat != "" && fl.TimestampFormat != "RFC3339" && fl.Card != "singular") {
 							plain = false
 						}
@@ -283,6 +279,12 @@ func CheckC11(run *Run) {
 					cases = append(cases, &c11Case{t: t, ct: 0, body: validJSON, fault: &[2]any{min(after, len(validJSON)), kind}, family: "read-fault"})
 				}
 			}
+		}
+	}
+	// numeric literals at and beyond every integer kind's range, in every JSON spelling (c11_num.go)
+	for _, t := range targets {
+		if t.known {
+			cases = append(cases, c11NumericCases(t)...)
 		}
 	}
 	// large bodies around plausible size limits (1, 4, 8 MiB): a complete document followed by garbage
@@ -420,6 +422,9 @@ func CheckC11(run *Run) {
 				holds, note = false, "handler-seen message differs from the reference decoding of the body"
 			}
 		}
+		if holds && c.expect != nil {
+			holds, note = c11CheckExpect(c.expect, class, saw)
+		}
 		obs := map[string]any{"outcome": class}
 		cr := &CaseResult{ID: fmt.Sprintf("%s/%s#%d", c.t.req.ID, c.t.md.Name, i), Family: c.family,
 			Input: map[string]any{"schema": c.t.req.ID, "method": c.t.md.Name, "content_type": c11CTs[c.ct], "body_hex": hexShort(c.body), "body_text": textShort(c.body), "fault": c.fault},
@@ -436,7 +441,7 @@ func CheckC11(run *Run) {
 		}
 		ccs = append(ccs, CoqCase{Term: fmt.Sprintf("(%s, %d%%nat, %s, %s, [%s], %s)", CoqBool(binary), readRes, CoqBool(len(delivered) == 0), CoqBool(syntaxOK), strings.Join(cb, "; "), CoqBool(restOK)), Obs: obs})
 	}
-	vs, err := CoqRun(run.WorkDir, "c11", "From Sebuf Require Import Text Json Malformed.\n", "", "c11_case", "predict_C11", ccs, 16)
+	vs, err := coqRunDedup(run.WorkDir, "c11", "From Sebuf Require Import Text Json Malformed.\n", "", "c11_case", "predict_C11", ccs, 16)
 	if err != nil {
 		run.Fatal("model evaluation: %v", err)
 	}
@@ -456,8 +461,40 @@ func CheckC11(run *Run) {
 	}
 	// ---- clients: arbitrary status / content type / body -----------------------------------------
 	c11Clients(run, s, reqs, rng)
+	// ---- clients behind framing headers that lie (c11_framing.go) -----------------------------------
+	c11Framing(run, s, reqs, rng)
 	run.Extra["targets"] = len(targets)
 	run.Finish()
+}
+
+// coqRunDedup evaluates each distinct (model input, observation) pair once: the model is a pure
+// function and the C11 case space is small (a handful of booleans), so thousands of bodies share a
+// few dozen distinct evaluations.
+func coqRunDedup(workdir, name, imports, defs, caseType, fn string, cases []CoqCase, par int) ([]CoqVerdict, error) {
+	idx := map[string]int{}
+	var uniq []CoqCase
+	at := make([]int, len(cases))
+	for i, c := range cases {
+		o, _ := json.Marshal(Canon(c.Obs))
+		k := c.Term + "\x00" + string(o)
+		j, ok := idx[k]
+		if !ok {
+			j = len(uniq)
+			idx[k] = j
+			uniq = append(uniq, c)
+		}
+		at[i] = j
+	}
+	vs, err := CoqRun(workdir, name, imports, defs, caseType, fn, uniq, par)
+	if err != nil {
+		return nil, err
+	}
+	out := make([]CoqVerdict, len(cases))
+	for i := range cases {
+		out[i] = vs[at[i]]
+		out[i].Tags = append([]string(nil), vs[at[i]].Tags...)
+	}
+	return out, nil
 }
 
 func hexShort(b []byte) string {
@@ -566,7 +603,7 @@ func c11Clients(run *Run, s *Session, reqs []*Request, rng *rand.Rand) {
 		results = append(results, cr)
 		ccs = append(ccs, CoqCase{Term: fmt.Sprintf("(%d%%Z, %s, %s, %s, %s)", c.status, CoqBool(len(c.body) == 0), CoqBool(dec(c.md.Out)), CoqBool(asVal), CoqBool(asErr)), Obs: obs})
 	}
-	vs, err := CoqRun(run.WorkDir, "c11cli", "From Sebuf Require Import Text Json Malformed.\n", "", "c11_client_case", "predict_C11_client", ccs, 8)
+	vs, err := coqRunDedup(run.WorkDir, "c11cli", "From Sebuf Require Import Text Json Malformed.\n", "", "c11_client_case", "predict_C11_client", ccs, 8)
 	if err != nil {
 		run.Fatal("model evaluation: %v", err)
 	}
